@@ -133,9 +133,133 @@ impl Space for Sweep {
         r
     }
 }
+// ---------------------------------------------------------------- histories over two archives
+/// Every sequence of 1..3 extractions over two archives that hold the SAME names with different
+/// contents, per entry point and pool kind, inside one process: what a call returns must depend on
+/// the archive it is given only, never on which archive the same pool / thread served before.
+struct Seq {
+    dir: Scratch,
+    archs: [PathBuf; 2],
+    cases: Vec<(usize, usize, Vec<usize>)>, // entry point, pool kind, archive sequence
+}
+const ENTRY: [&str; 7] = ["extract_files_parallel", "extract_files_batched", "process_files_parallel", "extract_matching_parallel", "read_file_with_new_handle", "extract_with_config", "extract_with_config(skip_errors)"];
+const POOLS: [usize; 5] = [0, 1, 2, 4, 8]; // 0 = the global pool (caller thread outside any pool)
+fn seq_names() -> Vec<String> {
+    (0..24).map(|i| format!("dir{}\\file_{i:02}.dat", i % 3)).collect()
+}
+fn seq_content(a: usize, i: usize) -> Vec<u8> {
+    format!("[archive {a}] content of file {i} {}", "y".repeat(i * 5 + a)).into_bytes()
+}
+impl Seq {
+    fn new(tier: Tier) -> Self {
+        let dir = Scratch::new("c09seq");
+        let names = seq_names();
+        let mk = |a: usize| -> PathBuf {
+            let files: Vec<WFile> = names.iter().enumerate().map(|(i, n)| WFile { method: if i % 2 == 0 { mpqref::M_ZLIB } else { 0 }, ..WFile::plain(n, &seq_content(a, i)) }).collect();
+            let p = dir.path(&format!("seq{a}.mpq"));
+            std::fs::write(&p, mpqref::write(&files, &WOptions { hash_size: 64, ..WOptions::default() }).unwrap()).unwrap();
+            p
+        };
+        let archs = [mk(0), mk(1)];
+        let mut seqs: Vec<Vec<usize>> = vec![];
+        let maxlen = tier.pick(3, 4);
+        fn rec(cur: &mut Vec<usize>, maxlen: usize, out: &mut Vec<Vec<usize>>) {
+            if !cur.is_empty() {
+                out.push(cur.clone());
+            }
+            if cur.len() == maxlen {
+                return;
+            }
+            for a in 0..2 {
+                cur.push(a);
+                rec(cur, maxlen, out);
+                cur.pop();
+            }
+        }
+        rec(&mut vec![], maxlen, &mut seqs);
+        let mut cases = vec![];
+        for e in 0..ENTRY.len() {
+            for p in 0..POOLS.len() {
+                for s in &seqs {
+                    cases.push((e, p, s.clone()));
+                }
+            }
+        }
+        Seq { dir, archs, cases }
+    }
+    fn one_call(&self, e: usize, a: usize) -> Result<Vec<(String, Vec<u8>)>, String> {
+        let names = seq_names();
+        let refs: Vec<&str> = names.iter().map(|s| s.as_str()).collect();
+        let path = &self.archs[a];
+        let pa = ParallelArchive::open(path).map_err(|e| e.to_string())?;
+        match e {
+            0 => pa.extract_files_parallel(&refs).map_err(|e| e.to_string()),
+            1 => pa.extract_files_batched(&refs, 5).map_err(|e| e.to_string()),
+            2 => pa.process_files_parallel(&refs, |n, d| Ok((n.to_string(), d))).map_err(|e| e.to_string()),
+            3 => pa.extract_matching_parallel(|n| n.contains("file_")).map_err(|e| e.to_string()),
+            4 => refs.iter().map(|n| pa.read_file_with_new_handle(n).map(|d| (n.to_string(), d)).map_err(|e| e.to_string())).collect(),
+            _ => {
+                let cfg = ParallelConfig::new().threads(2).batch_size(5).skip_errors(e == 6);
+                extract_with_config(path, &refs, cfg).map_err(|e| e.to_string())?.into_iter().map(|(n, r)| r.map(|d| (n, d)).map_err(|e| e.to_string())).collect()
+            }
+        }
+    }
+}
+impl Space for Seq {
+    fn len(&self) -> u64 {
+        self.cases.len() as u64
+    }
+    fn describe(&self, i: u64) -> Value {
+        let (e, p, s) = &self.cases[i as usize];
+        json!({"entry": ENTRY[*e], "pool": if POOLS[*p] == 0 { "global".to_string() } else { format!("installed, {} threads", POOLS[*p]) }, "archive_sequence": s})
+    }
+    fn run(&self, i: u64) -> CaseResult {
+        let (e, p, s) = self.cases[i as usize].clone();
+        let mut r = CaseResult::new();
+        r.nontrivial = true;
+        r.key = format!("{i}");
+        let _ = &self.dir;
+        let names = seq_names();
+        let body = || -> Vec<(usize, Result<Vec<(String, Vec<u8>)>, String>)> { s.iter().map(|a| (*a, self.one_call(e, *a))).collect() };
+        let results = if POOLS[p] == 0 { body() } else { rayon::ThreadPoolBuilder::new().num_threads(POOLS[p]).build().unwrap().install(body) };
+        for (step, (a, got)) in results.iter().enumerate() {
+            // sequential reference from the archive this call was given
+            let mut ar = Archive::open(&self.archs[*a]).unwrap();
+            let mut want: Vec<(String, Vec<u8>)> = names.iter().map(|n| (n.clone(), ar.read_file(n).unwrap())).collect();
+            for (i, w) in want.iter().enumerate() {
+                assert_eq!(w.1, seq_content(*a, i), "reference read");
+            }
+            match got {
+                Ok(v) => {
+                    let mut v = v.clone();
+                    if e == 3 {
+                        // list order is the archive's own; compare as sets of (name, bytes)
+                        v.sort();
+                        want.sort();
+                    }
+                    if v != want {
+                        let bad = v.iter().zip(want.iter()).position(|(x, y)| x != y).unwrap_or(0);
+                        r.viol(
+                            "a parallel extraction returns bytes of another archive than the one it was given (or not the sequential read)",
+                            format!("{} step {step} of sequence {s:?}: slot {bad}: got {:?}, sequential read gives {:?}", ENTRY[e], v.get(bad).map(|x| String::from_utf8_lossy(&x.1).chars().take(40).collect::<String>()), want.get(bad).map(|x| String::from_utf8_lossy(&x.1).chars().take(40).collect::<String>())),
+                        );
+                        break;
+                    }
+                }
+                Err(err) => {
+                    r.viol("a parallel extraction fails although every requested name reads sequentially", format!("{} step {step} of sequence {s:?}: {err}", ENTRY[e]));
+                    break;
+                }
+            }
+        }
+        r.outcome = "ok".into();
+        r
+    }
+}
 fn build(name: &str, _arg: &str, tier: Tier) -> Box<dyn Space> {
     match name {
         "sweep" => Box::new(Sweep::new(tier)),
+        "seq" => Box::new(Seq::new(tier)),
         _ => panic!("space {name}"),
     }
 }
@@ -143,8 +267,9 @@ fn main() {
     let Mode::Supervisor(mut c) = start("C09", "model_checking", build) else { return };
     // each case spawns its own pools of up to 32 threads: run fewer worker processes
     c.jobs = c.jobs.min(6);
-    c.rule = "full product threads {1,2,3,4,8,16,32} x batch {1,2,7,10,N} x list length {0,1,9,10,11,999,1000,1001,1100} x skip_errors x missing position {none,first,middle,last} on the real rayon; slot-by-slot comparison with sequential reads (uncontrolled scheduler: decides the configuration clause only)".into();
+    c.rule = "full product threads {1,2,3,4,8,16,32} x batch {1,2,7,10,N} x list length {0,1,9,10,11,999,1000,1001,1100} x skip_errors x missing position {none,first,middle,last} on the real rayon; slot-by-slot comparison with sequential reads (uncontrolled scheduler: decides the configuration clause only); space seq: every sequence of 1..3 (thorough 1..4) extractions over two archives holding the same names with different contents x 7 entry points x {global pool, installed pools of 1/2/4/8 threads} inside one process, each call compared with sequential reads of the archive it was given".into();
     c.run_space("sweep", "");
+    c.run_space("seq", "");
     c.extra_cov.insert("states".into(), json!(1));
     c.extra_cov.insert("transitions".into(), json!(1));
     c.extra_cov.insert("traces_validated_against_impl".into(), json!(c.agg.evaluations));
